@@ -1,10 +1,10 @@
 //! IGS (Instant Graphics and Sound, Atari ST) side of C20: command table (doc/IG219.TXT), stream model, renderer,
 //! executor, enumerations and random strategy.
-use crate::common::{drive, Fail, Known, Reporter, Run, SegInfo, Stopwatch, IDX_PICTURE, IDX_SETUP};
+use crate::common::{drive, grid_text, push_ascii, Fail, Known, Reporter, Run, SegInfo, Stopwatch, Text, ALPHABETS, IDX_PICTURE, IDX_SETUP, MAX_PAUSE_MS, TEXT_LENGTHS};
 use icy_engine::{igs, BufferParser, CallbackAction};
 use icyv::proptest::collection::vec;
 use icyv::proptest::prelude::*;
-use icyv::util::{pick, Bytes};
+use icyv::util::pick;
 use icyv::{alloc, panics, stream, Verdict};
 use serde::{Deserialize, Serialize};
 use std::sync::{Arc, Mutex};
@@ -80,7 +80,7 @@ pub struct IgsSeg {
     /// parameters as sent, separated by `,` (for `&`: from, to, step, delay)
     pub params: Vec<String>,
     /// W: the text (sent as `,text@`); cmd 0: the plain text
-    pub text: Bytes,
+    pub text: Text,
     /// 0 `:` and the next command is chained; 1 `:` LF; 2 `:` CR LF; 3 LF without `:` (unterminated)
     pub term: u8,
     pub lp: Option<LoopTail>,
@@ -107,61 +107,66 @@ pub fn family(s: &IgsSeg) -> String {
     }
 }
 
-pub fn render_seg(s: &IgsSeg, sync: &mut bool, out: &mut Vec<u8>) {
+pub fn render_seg(s: &IgsSeg, sync: &mut bool, out: &mut Vec<char>) {
     if s.cmd == 0 {
         if *sync {
-            out.push(b'\n');
+            out.push('\n');
         }
         out.extend_from_slice(&s.text);
         *sync = false;
         return;
     }
     if !*sync {
-        out.extend_from_slice(b"G#");
+        push_ascii(out, b"G#");
     }
-    out.push(s.cmd);
+    out.push(s.cmd as char);
     if s.gt {
-        out.push(b'>');
+        out.push('>');
     }
-    out.extend_from_slice(s.params.join(",").as_bytes());
+    out.extend(s.params.join(",").chars());
     let mut colon = true;
     if let Some(lp) = &s.lp {
-        out.push(b',');
-        out.extend_from_slice(lp.target.as_bytes());
-        out.push(lp.sep);
-        out.extend_from_slice(lp.count.as_bytes());
-        out.push(b',');
+        out.push(',');
+        out.extend(lp.target.chars());
+        out.push(lp.sep as char);
+        out.extend(lp.count.chars());
+        out.push(',');
         let groups: Vec<String> = lp.groups.iter().map(|g| g.join(",")).collect();
-        out.extend_from_slice(groups.join(":").as_bytes());
-    } else if s.cmd == b'W' && !s.text.is_empty() {
-        out.push(b',');
+        out.extend(groups.join(":").chars());
+    } else if s.cmd == b'W' {
+        // W: x,y,text@ (`@` ends the command)
+        out.push(',');
         out.extend_from_slice(&s.text);
-        out.push(b'@');
-        colon = false; // `@` ends the command
+        out.push('@');
+        colon = false;
+    } else if !s.text.is_empty() {
+        // other commands the document gives a data / text part (N, X, <): after the numbers
+        out.push(',');
+        out.extend_from_slice(&s.text);
     }
     match s.term {
         0 => {
             if colon {
-                out.push(b':');
+                out.push(':');
             }
             *sync = true;
         }
         1 => {
             if colon {
-                out.push(b':');
+                out.push(':');
             }
-            out.push(b'\n');
+            out.push('\n');
             *sync = false;
         }
         2 => {
             if colon {
-                out.push(b':');
+                out.push(':');
             }
-            out.extend_from_slice(b"\r\n");
+            push_ascii(out, b"\r\n");
             *sync = false;
         }
         _ => {
-            out.push(b'\n');
+            out.push('\n');
             *sync = false;
         }
     }
@@ -218,9 +223,13 @@ fn run(prefix: u8, segs: &[IgsSeg], alive: &[usize], rep: &Reporter) -> Run {
             let mut drain_sum = 0u64;
             let mut drain_max = 0u64;
             let mut hit_cap = false;
+            let mut worst_pause = 0u32;
             for (bi, b) in bytes.iter().enumerate() {
-                let res = parser.print_char(&mut buf, 0, &mut caret, *b as char);
-                if seg.cmd != 0 && matches!(*b, b':' | b'@' | b',') {
+                let res = parser.print_char(&mut buf, 0, &mut caret, *b);
+                if let Ok(CallbackAction::Pause(ms)) = &res {
+                    worst_pause = worst_pause.max(*ms);
+                }
+                if seg.cmd != 0 && matches!(*b, ':' | '@' | ',') {
                     match &res {
                         Ok(CallbackAction::NoUpdate) => {}
                         Ok(_) => out.executed = true,
@@ -252,7 +261,12 @@ fn run(prefix: u8, segs: &[IgsSeg], alive: &[usize], rep: &Reporter) -> Run {
                     drain_max = drain_max.max(dt);
                     n += 1;
                     match a {
-                        Some(_) => out.executed = true,
+                        Some(a) => {
+                            out.executed = true;
+                            if let CallbackAction::Pause(ms) = a {
+                                worst_pause = worst_pause.max(ms);
+                            }
+                        }
                         None if !tolerant => break,
                         None => {}
                     }
@@ -269,6 +283,11 @@ fn run(prefix: u8, segs: &[IgsSeg], alive: &[usize], rep: &Reporter) -> Run {
                         cap = 0;
                     }
                 }
+            }
+            if worst_pause > MAX_PAUSE_MS {
+                // a pause the terminal has to sit out is a stall as well; the command that computes it is to blame, looped or not
+                let fam = family(seg).replace("igs|&", "igs|");
+                out.fails.push((i, Fail { key: format!("stall.pause|{fam}"), msg: format!("segment {i} asks the terminal to pause for {worst_pause} ms (the document allows 30 s at most)") }));
             }
             let (cpu, blocked) = sw.stop();
             // CPU of one command: the segment without its drained loop steps, or the most expensive single step
@@ -427,7 +446,7 @@ impl Table {
         let rest = i / nl;
         let prefix = (rest % 2) as u8;
         let cmd = self.letters[(rest / 2) as usize];
-        let text = if cmd == b'W' { Bytes(b"Hi".to_vec()) } else { Bytes(Vec::new()) };
+        let text = if cmd == b'W' { Text::latin1(b"Hi") } else { Text::default() };
         let mut params: Vec<String> = ps.iter().map(|v| v.to_string()).collect();
         if matches!(cmd, b'f' | b'z') && params.len() >= 3 && params.len() % 2 == 1 {
             // the point count these two commands check: the patterns then apply to the coordinates
@@ -440,9 +459,9 @@ impl Table {
 // enumerated part 2: loops over every command letter
 
 const LOOP_RANGES: [(u32, u32, u32); 5] = [(0, 4, 1), (4, 0, 2), (2, 2, 1), (0, 3, 0), (0, LARGE + 1, LARGE)];
-const LOOP_STYLES: [&[&str]; 7] = [&["x"], &["y"], &["1"], &["+1"], &["-1"], &["!1"], &["x", "y", "+10", "3"]];
+const LOOP_STYLES: [&[&str]; 8] = [&["x"], &["y"], &["1"], &["+1"], &["-1"], &["!1"], &["x", "y", "+10", "3"], &["-100"]];
 /// (range, style) combinations: the four small ranges with every style, the large range (x = 0 and LARGE) with x and y only
-const N_COMBOS: usize = 4 * 7 + 2;
+const N_COMBOS: usize = 4 * 8 + 2;
 
 pub fn loops_total() -> u64 {
     (IGS_CMDS.len() * N_COMBOS * 3 * 2) as u64
@@ -455,7 +474,7 @@ pub fn loops_case(mut i: u64) -> IgsCase {
     i /= 3;
     let combo = (i % N_COMBOS as u64) as usize;
     i /= N_COMBOS as u64;
-    let (ri, si) = if combo < 28 { (combo / 7, combo % 7) } else { (4, combo - 28) };
+    let (ri, si) = if combo < 32 { (combo / 8, combo % 8) } else { (4, combo - 32) };
     let style = LOOP_STYLES[si];
     let (from, to, step) = LOOP_RANGES[ri];
     let (letter, arity) = IGS_CMDS[i as usize];
@@ -487,7 +506,7 @@ pub fn loops_case(mut i: u64) -> IgsCase {
             cmd: b'&',
             gt: true,
             params: vec![from.to_string(), to.to_string(), step.to_string(), "0".to_string()],
-            text: Bytes(Vec::new()),
+            text: Text::default(),
             term: 0,
             lp: Some(LoopTail { target: (letter as char).to_string(), sep: b',', count: count.to_string(), groups }),
         }],
@@ -499,7 +518,7 @@ pub fn loops_case(mut i: u64) -> IgsCase {
 // ordinary in-canvas parameters (state-dependent defects, found deterministically)
 
 fn mk(cmd: u8, params: &[u32], text: &[u8]) -> IgsSeg {
-    IgsSeg { cmd, gt: true, params: params.iter().map(|v| v.to_string()).collect(), text: Bytes(text.to_vec()), term: 1, lp: None }
+    IgsSeg { cmd, gt: true, params: params.iter().map(|v| v.to_string()).collect(), text: Text::latin1(text), term: 1, lp: None }
 }
 
 pub struct Pairs {
@@ -596,7 +615,7 @@ impl Pairs {
             cmd: b'&',
             gt: true,
             params: vec![from.to_string(), to.to_string(), "1".to_string(), "0".to_string()],
-            text: Bytes(Vec::new()),
+            text: Text::default(),
             term: 1,
             lp: Some(LoopTail { target: target.to_string(), sep: b',', count: group.len().to_string(), groups: vec![group.iter().map(|t| t.to_string()).collect()] }),
         };
@@ -620,6 +639,29 @@ impl Pairs {
         }
         IgsCase { prefix: 0, segs: vec![self.setters[(i / nd) as usize].clone(), self.drawers[(i % nd) as usize].clone()] }
     }
+}
+
+// ---------------------------------------------------------------------------------------------------------
+// text part: the commands with a text / data part (W, N, X, <) and plain text between commands x {fresh, preamble: other
+// text size and rotation} x text grid (lengths around the 128 / 256 character marks x alphabets x {no lead, one ASCII character in front})
+
+const TEXT_CMDS: [(u8, &[u32]); 5] = [(b'W', &[20, 50]), (b'N', &[0, 10]), (b'X', &[4, 1]), (b'<', &[1, 1, 1]), (0, &[])];
+
+pub fn texts_total() -> u64 {
+    (TEXT_CMDS.len() * 2 * TEXT_LENGTHS.len() * 5 * 2) as u64
+}
+
+pub fn texts_case(mut i: u64) -> IgsCase {
+    let lead = i % 2 == 1;
+    i /= 2;
+    let a = (i % 5) as usize;
+    i /= 5;
+    let len = TEXT_LENGTHS[(i % TEXT_LENGTHS.len() as u64) as usize];
+    i /= TEXT_LENGTHS.len() as u64;
+    let prefix = (i % 2) as u8;
+    let (cmd, params) = TEXT_CMDS[(i / 2) as usize];
+    let text = Text(grid_text(len, alphabet(a), lead));
+    IgsCase { prefix, segs: vec![IgsSeg { cmd, gt: cmd != 0, params: params.iter().map(|v| v.to_string()).collect(), text, term: 1, lp: None }] }
 }
 
 // ---------------------------------------------------------------------------------------------------------
@@ -672,20 +714,37 @@ fn loop_token() -> BoxedStrategy<String> {
     .boxed()
 }
 
-fn text() -> BoxedStrategy<Vec<u8>> {
+/// the characters IGS itself gives a meaning inside a command: text terminator, command terminator, separators, line ends
+pub const IGS_SPECIAL: &[char] = &['@', ':', ',', '_', '>', '\r', '\n', '|'];
+
+fn alphabet(i: usize) -> &'static [char] {
+    if i < ALPHABETS.len() {
+        ALPHABETS[i]
+    } else {
+        IGS_SPECIAL
+    }
+}
+
+fn text() -> BoxedStrategy<Vec<char>> {
+    let t = |s: &str| Just(s.chars().collect::<Vec<char>>());
     let tok = prop_oneof![
-        4 => Just(b"Ab".to_vec()),
-        2 => Just(b" x".to_vec()),
-        1 => Just(b"G".to_vec()),
-        1 => Just(vec![0xE4]),
-        1 => Just(vec![0xFF]),
-        1 => Just(vec![0x00]),
-        1 => Just(vec![0x7F]),
-        1 => Just(vec![0x1B, b'[', b'1', b'm']),
-        1 => Just(b"\r".to_vec()),
-        3 => (0x20u8..=0x7E).prop_filter("not a terminator", |b| !matches!(*b, b'@' | b'#')).prop_map(|b| vec![b]),
+        4 => t("Ab"),
+        2 => t(" x"),
+        1 => t("G"),
+        1 => t("\u{e4}"),
+        1 => t("\u{ff}"),
+        1 => t("\u{0}"),
+        1 => t("\u{7f}"),
+        1 => t("\u{20ac}"),
+        1 => t("\u{2588}"),
+        1 => t("\u{1b}[1m"),
+        1 => t("\r"),
+        3 => (0x20u8..=0x7E).prop_filter("not a terminator", |b| !matches!(*b, b'@' | b'#')).prop_map(|b| vec![b as char]),
     ];
-    vec(tok, 0..=6).prop_map(|v| v.concat()).boxed()
+    let short = vec(tok, 0..=6).prop_map(|v| v.concat());
+    // long texts: around the 128 and 256 character marks, rarely 1000; one alphabet, optionally one ASCII character in front
+    let long = (prop_oneof![6 => 120usize..=135, 3 => 250usize..=262, 1 => Just(1000usize)], 0usize..5, any::<bool>()).prop_map(|(len, a, lead)| grid_text(len, alphabet(a), lead));
+    prop_oneof![9 => short, 1 => long].boxed()
 }
 
 pub fn seg_strategy() -> BoxedStrategy<IgsSeg> {
@@ -699,7 +758,7 @@ pub fn seg_strategy() -> BoxedStrategy<IgsSeg> {
     )
         .prop_map(|((sel, ci, unk), (amode, nrand, npts), vals, gt, term, text)| {
             if sel < 4 {
-                return IgsSeg { cmd: 0, gt: false, params: vec![], text: Bytes(text), term: 1, lp: None };
+                return IgsSeg { cmd: 0, gt: false, params: vec![], text: Text(text), term: 1, lp: None };
             }
             let (cmd, arity) = if sel < 8 { ([b'x', b'a', b'h', b'j', b'0', b'#', b'e', b'u'][(unk % 8) as usize], (unk % 5) as usize) } else { let d = IGS_CMDS[pick(ci, IGS_CMDS.len())]; (d.0, d.1 as usize) };
             let mut params: Vec<String>;
@@ -719,7 +778,7 @@ pub fn seg_strategy() -> BoxedStrategy<IgsSeg> {
                     params = vals.iter().take(n).cloned().collect();
                 }
             }
-            let text = if cmd == b'W' { Bytes(text) } else { Bytes(Vec::new()) };
+            let text = if matches!(cmd, b'W' | b'N' | b'X' | b'<') { Text(text) } else { Text::default() };
             IgsSeg { cmd, gt, params, text, term, lp: None }
         });
     let looped = (
@@ -775,7 +834,7 @@ pub fn seg_strategy() -> BoxedStrategy<IgsSeg> {
                 cmd: b'&',
                 gt,
                 params: vec![from.to_string(), to.to_string(), step.to_string(), delay.to_string()],
-                text: Bytes(Vec::new()),
+                text: Text::default(),
                 term,
                 lp: Some(LoopTail { target, sep, count: count.to_string(), groups }),
             }
@@ -828,7 +887,12 @@ pub fn minimize(c: &IgsCase) -> Vec<IgsCase> {
                 s.text.0.pop();
             }));
             if s.text.len() > 1 {
-                out.push(with(&|s| s.text.0 = vec![b'A']));
+                out.push(with(&|s| s.text.0 = vec!['A']));
+                let n = s.text.len();
+                out.push(with(&|s| s.text.0.truncate(n / 2)));
+                out.push(with(&|s| {
+                    s.text.0.remove(0);
+                }));
             }
         }
         if s.lp.is_none() && !s.params.is_empty() {
